@@ -11,6 +11,7 @@ from asyncio import base_events
 import threading
 
 from . import sched as _sched
+from .detorder import OrderedWeakSet
 
 
 class _SimSelector:
@@ -63,6 +64,7 @@ class SimLoop(base_events.BaseEventLoop):
             raise RuntimeError('SimLoop created outside a simulation run')
         self._sim = s
         self._selector = _SimSelector(self)
+        self._asyncgens = OrderedWeakSet()
         self._wake = False
         self._clock_resolution = 1e-9
         self.run_epoch = 0
